@@ -302,6 +302,18 @@ func runC18(c *Ctx) {
 					okW = false
 				}
 			}
+			// whatever form the selection takes (`switch watch { case false: ... }`, `if !watch`): as truth tables over the flag
+			if !okW {
+				pb := &predBuilder{name: func(v ssa.Value) string {
+					if v == ssa.Value(wp) {
+						return "watch"
+					}
+					return ""
+				}}
+				rw := compareTable(pb.pathCond(fsF.Blocks[0], wsCall.Block()), []string{"watch"}, nil, func(e env) bool { return e.B["watch"] })
+				rn := compareTable(pb.pathCond(fsF.Blocks[0], nsCall.Block()), []string{"watch"}, nil, func(e env) bool { return !e.B["watch"] })
+				okW = len(rw.Unknown) == 0 && rw.Mismatch == "" && len(rn.Unknown) == 0 && rn.Mismatch == ""
+			}
 		}
 		c.check(okW, "watch-forwarding", relName(fsF), fsF.Pos(), "watching source exactly when watch is true", "fileSource does not pick the watching source exactly under its watch flag")
 	}
